@@ -299,3 +299,55 @@ pub fn run_nested_imports(seed: u64, n: usize, out: &mut Out) {
         out.add_spec(Case { input, coq: format!("run_sem {coq_args}"), imp, nontrivial, key: format!("sni{i}:{text}") }, None);
     }
 }
+
+
+/// A @fold with outputs evaluated BEFORE a @recurse edge of the same component (recursed vertices with
+/// several neighbours must keep the fold's outputs), also with the fold after the recursion.
+pub fn run_fold_then_recurse(seed: u64, n: usize, out: &mut Out) {
+    let mut rng = Rng::new(seed ^ 0xf01d);
+    let schema = world::schema();
+    for i in 0..n {
+        let mut r2 = rng.fork();
+        let root = *r2.pick(&["Thing", "Item", "Box", "Gadget"]);
+        let ef = *r2.pick(&["link", "next", "next(hi: 9)"]);
+        let er = *r2.pick(&["next", "link", "parent"]);
+        let d = r2.range(1, 3);
+        let fold = match r2.range(0, 2) {
+            0 => format!("{ef} @fold @transform(op: \"count\") @output(name: \"c\") {{ id @output(name: \"f\") }}"),
+            1 => format!("{ef} @fold {{ id @output(name: \"f\") link @fold @transform(op: \"count\") @output(name: \"c\") }}"),
+            _ => format!("{ef} @fold @transform(op: \"count\") @output(name: \"c\")"),
+        };
+        let rec = format!("{er} @recurse(depth: {d}) {{ id @output(name: \"m\") }}");
+        let text = if r2.chance(2, 3) {
+            format!("query {{ {root} {{ id @output(name: \"r\") {fold} {rec} }} }}")
+        } else {
+            format!("query {{ {root} {{ id @output(name: \"r\") {rec} {fold} }} }}")
+        };
+        let indexed = match parse(&schema, &text) {
+            Ok(ix) => ix,
+            Err(_) => {
+                out.count("fold-then-recurse:template-rejected");
+                continue;
+            }
+        };
+        out.count("family:fold-then-recurse");
+        let c = EngineCase {
+            dataset: world::gen_dataset(&mut r2, 8),
+            query_text: text.clone(),
+            indexed,
+            args: Arc::new(BTreeMap::new()),
+            features: Default::default(),
+            var_hints: Default::default(),
+        };
+        let o = run_impl(&c);
+        let imp = show_outcome(&o);
+        let nontrivial = matches!(&o, Outcome::Rows(r) if !r.is_empty());
+        let input = case_input_json(&c);
+        let coq_args = case_coq_args(&c);
+        if let Outcome::Panic(m) = &o {
+            out.oracle_fail("executing an accepted query panicked", input.clone(), json!({"panic": m.chars().take(300).collect::<String>()}));
+        }
+        out.add(Case { input: input.clone(), coq: format!("run_exec {coq_args}"), imp: imp.clone(), nontrivial, key: format!("fr{i}:{text}") });
+        out.add_spec(Case { input, coq: format!("run_sem {coq_args}"), imp, nontrivial, key: format!("sfr{i}:{text}") }, None);
+    }
+}
